@@ -54,6 +54,12 @@ ABS = [
     ("import vpkg.sub.mod as sm\nfrom vpkg.sub import sib\nimport vpkg", ["sm", "sib", "vpkg"], "interleaved"),
     ("from vpkg import leaf\nfrom vpkg import leaf as again\nimport vpkg.leaf as third", ["leaf", "again", "third"], "repeated"),
     ("import math, vtop\nfrom os import path as osp, sep", ["math", "vtop", "osp", "sep"], "with-stdlib"),
+    # the top-level name is rebound between two dotted imports: the second one binds it again
+    ("import vpkg.leaf\nvpkg = None\nimport vpkg.other", ["vpkg"], "rebound-between"),
+    ("import vpkg.leaf\nkeep = vpkg\nvpkg = 'shadow'\nimport vpkg.sub.mod\nsame = keep is vpkg", ["vpkg", "same"], "rebound-between-deep"),
+    ("import vpkg.leaf as vpkg\nimport vpkg.other\nfrom vpkg import leaf as vpkg", ["vpkg"], "alias-then-plain-then-from"),
+    ("from vtop import T\nT = T + '!'\nfrom vtop import T as T2, T", ["T", "T2"], "from-rebound"),
+    ("from vpkg import other, leaf, other as o2, X, X as X2", ["other", "leaf", "o2", "X", "X2"], "from-duplicates-in-order"),
 ]
 # relative forms: the program is vpkg.sub.prog (package vpkg.sub)
 REL = [
@@ -71,7 +77,7 @@ REL = [
     ("from .. import sub", ["sub"], "rel2-package"),
     ("from . import deep\nfrom .. import top_value\nimport vpkg.other", ["deep", "top_value", "vpkg"], "rel-mixed"),
 ]
-PLACEMENTS = ("module", "function", "class", "global_decl", "captured")
+PLACEMENTS = ("module", "function", "class", "global_decl", "captured", "captured_by_class")
 
 
 def program(stmt, names, where):
@@ -88,6 +94,12 @@ def program(stmt, names, where):
     if where == "captured":
         return ("def FF():\n" + "\n".join("    " + l for l in lines)
                 + "\n    def GG():\n        return (%s,)\n    L('inner', *GG())\n    %s\nFF()\n" % (", ".join(names), show))
+    if where == "captured_by_class":
+        # the imported names are read by the body of a class nested in the function (and by a
+        # comprehension in that class body): bindings that exist only because of the import
+        return ("def FF():\n" + "\n".join("    " + l for l in lines)
+                + "\n    class KK:\n        got = (%s,)\n        viacomp = [(%s,) for _q in range(1)]\n    L('cls', *KK.got)\n    L('comp', *KK.viacomp[0])\n    %s\nFF()\n"
+                % (", ".join(names), ", ".join(names), show))
     raise ValueError(where)
 
 
